@@ -29,7 +29,8 @@ RULE = (
     "aspect 1:50, random rotation) x point placement (inside the cell, +-5 cells outside, one point) x wrap on/off, then 9-14 queries "
     "(centres in the cell, on a grid point, on a far image of a grid point, +-10 cells away; radii 0, tiny (empty), fractions and multiples "
     "of the smallest/largest plane spacing, near-tie radii d_k(1+-1e-8), exact ties). Family 'nolattice': dim 1-3 without lattice "
-    "vectors (None or empty array), every finite-radius query mirrored on a plain Grid; r=inf recorded only. Family 'history': lattice "
+    "vectors (None or empty array; every lattice case with even k also ends with a clone step: copy/deepcopy/pickle clone, same query to both, "
+    "one mutated, both queried again; history cases keep up to three live clones; selections are cloned too), every finite-radius query mirrored on a plain Grid; r=inf recorded only. Family 'history': lattice "
     "grids whose points/weights are reassigned through the public setters between queries. Family 'select': __getitem__ on lattice "
     "grids followed by queries on the selection. Weight vectors of every family by class (uniform, positive, negative, some/mostly/all exact "
     "zeros of both signs, denormal/1e-300, 1e300, int64, int32): membership must depend on geometry only, weights are exact copies. Brute-force cost is bounded by shrinking the radius until <= 20000 translations."
